@@ -77,7 +77,7 @@ def initial_tables(size):
 
 class Check(PropertyCheck):
     pid = "C15"
-    gen_files = ["GenStatus", "GenMulticastFn"]
+    gen_files = ["GenStatus", "GenMulticastFn", "GenMulticastInitFn"]
     model_imports = ["gen.GenStatus", "model.Status", "model.Multicast"]
     run_expr = "run_case"
     case_type = "(list (N * N) * list (N * N * N * N * list N))"
